@@ -176,6 +176,12 @@ pub struct TreeSpec {
     /// at the epoch, beyond 2038 and far in the future (chosen by entry index)
     #[serde(default)]
     pub mtime_mode: u8,
+    /// 0: modes as created (0644 / 0755), one name per file; otherwise files and directories get the
+    /// modes deployments have (read-only, private, executable, setuid / setgid / sticky, group- and
+    /// world-writable - the owner can always read) and every fourth file a second hard link outside
+    /// the served directory (st_nlink = 2), chosen by entry index
+    #[serde(default)]
+    pub meta_mode: u8,
 }
 
 // ------------------------------------------------------------------------------------- connections
